@@ -37,7 +37,9 @@ pub mod feat {
     pub const TIGHT_BLOCKS: u32 = 1 << 22;
     pub const COMMENT_UNIT: u32 = 1 << 23;
     pub const WRAP_TEXTVAL: u32 = 1 << 24;
-    pub const ALL: u32 = (1 << 25) - 1;
+    /// a tab, NBSP, thin space or ideographic space as the blank between two pieces of step text (kept verbatim, R6)
+    pub const UNICODE_BLANK: u32 = 1 << 25;
+    pub const ALL: u32 = (1 << 26) - 1;
     pub const NAMES: &[(&str, u32)] = &[
         ("wrap_in_text", WRAP_TEXT),
         ("wrap_in_name", WRAP_NAME),
@@ -64,6 +66,7 @@ pub mod feat {
         ("tight_single_line_blocks", TIGHT_BLOCKS),
         ("comment_in_unit", COMMENT_UNIT),
         ("wrap_in_text_value", WRAP_TEXTVAL),
+        ("unicode_blank_in_text", UNICODE_BLANK),
     ];
     pub fn names(mask: u32) -> Vec<&'static str> {
         NAMES.iter().filter(|(_, b)| mask & b != 0).map(|(n, _)| *n).collect()
@@ -192,7 +195,7 @@ const TEXT_WORDS: &[&str] = &[
 const SAFE_AFTER_DIGIT: &[&str] = &["eggs", "times", "large", "pieces", "and", "x", "rounds"];
 const NAME_WORDS: &[&str] = &[
     "salt", "flour", "olive", "oil", "Water", "égg", "ñoquis", "漢字", "bread1", "sugar", "Big", "pot", "pan", "butter", "wine", "sauce", "2nd",
-    "tomato", "rice", "Öl", "milk",
+    "tomato", "rice", "Öl", "milk", "crème\u{a0}fraîche", "de\u{3000}sel",
 ];
 const SINGLE_WORDS: &[&str] = &["salt", "flour", "Water", "égg", "漢字", "bread1", "sugar", "pot", "pan", "butter", "1", "rice", "Öl"];
 const UNITS_MASS: &[&str] = &["g", "kg", "gram", "grams", "oz", "lb", "mg"];
@@ -1315,6 +1318,16 @@ impl<'a> Sp<'a> {
                     let can_wrap = i + 1 < toks.len() || more_follows;
                     // a wrap must be followed by content on the next line: never before a trailing gap
                     let next_is_content = toks.get(i + 1).map(|n| !matches!(n, Tok::Gap)).unwrap_or(more_follows);
+                    // between content on the same line: sometimes a blank that is not U+0020 (text keeps it as written)
+                    let next_is_word = matches!(toks.get(i + 1), Some(Tok::Word(_)));
+                    let want_unicode = self.draw(feat::UNICODE_BLANK, 1, 10);
+                    if want_unicode && self.line_content && next_is_word {
+                        self.used |= feat::UNICODE_BLANK;
+                        let b = *self.rng.pick(&["\t", "\u{a0}", "\u{2009}", "\u{3000}", " \t", "\u{a0} "]);
+                        self.emit(b);
+                        exp.push_str(b);
+                        continue;
+                    }
                     exp.push_str(&self.gap(feat::WRAP_TEXT, feat::COMMENT_TEXT, can_wrap && next_is_content));
                 }
                 Tok::Inline { neg, num, unit, attached } => {
